@@ -36,8 +36,11 @@ def cases(tier, seed):
     if big:
         for pol in (1, 3, 5):
             n += 1
-            out.append(Case("tsan", "c19_suspend", ["--policy=%d" % pol, "--size=4", "--elastic=1", "--mode=history", "--cycles=60",
-                                                     "--seed=%d" % (seed * 1000 + n)], cls="history:tsan", slots=8, timeout=900))
+            # ASan, not TSan: suspending a worker makes the others take over its tasks, i.e. tasks migrate between OS threads,
+            # which overflows libtsan's per-OS-thread shadow stack (pika's context switch has no TSan fiber annotations; see
+            # DESIGN.md 7.5) - one libtsan crash in the first thorough run, TSan leg dropped as announced in the design
+            out.append(Case("asan", "c19_suspend", ["--policy=%d" % pol, "--size=4", "--elastic=1", "--mode=history", "--cycles=60",
+                                                     "--seed=%d" % (seed * 1000 + n)], cls="history:asan", slots=8, timeout=900))
     return out
 
 
